@@ -342,8 +342,8 @@ def _encode_rules(prog, res, f):
     # --- rank tables: sat_indx[i] = counter when bit (63 - i) of the mask is set, counter += 1 (ascending loops)
     for acc_, n_ in ((sat_acc, 64), (sig_acc, 32)):
         if pc_rank[n_] and okidx:
-            res.ob("M-cell", "%s | rank of an id in the %d-bit mask = population count of (mask >> (%d - id)) - 1 (ids before it that are present)" % (tag, n_, n_), True,
-                   "closure over %s" % show(acc_, names), loc)
+            res.ob("M-cell", "%s | rank of an id in the %d-bit mask = population count of the mask bits before the id's own bit (ids before it that are present)" % (tag, n_), True,
+                   "over %s" % show(acc_, names), loc)
         else:
             _rank_rule(res, f, fa, iv, tag, acc_, n_, loc)
     # --- Ok returns: dominated by the passing arms of mismatch and count guards
@@ -385,6 +385,28 @@ def _popcount_rank(prog, f, fa, term, acc, n):
     """term = r(id) for a closure  r = |id| (mask >> (n - id)).count_ones() as usize - 1  whose captured mask is the accumulator `acc`:
     the number of ids before `id` that are present in the mask (id's own bit, n - id, is the lowest one counted and is taken off again).
     Returns the id term, or None."""
+    # second form, written in place (or in a helper the pre-pass inlined):  (mask & !(MAX >> (id - 1))).count_ones()  - the set bits among the
+    # id - 1 most significant ones, i.e. the ids before `id` that are present
+    x0 = term
+    while x0.op == "cast":
+        x0 = x0.args[1]
+    if x0.op == "call" and isinstance(x0.args[0], str) and x0.args[0].endswith("<impl u%d>::count_ones" % n) and len(x0.args[1]) == 1:
+        a0 = x0.args[1][0]
+        if a0.op == "bin" and a0.args[0] == "BitAnd":
+            for m_, k_ in ((a0.args[1], a0.args[2]), (a0.args[2], a0.args[1])):
+                if not _same_value(m_, acc):
+                    continue
+                if k_.op == "un" and k_.args[0] == "Not":
+                    sh_ = k_.args[1]
+                elif k_.op == "not":
+                    sh_ = k_.args[0]
+                else:
+                    continue
+                if sh_.op == "bin" and sh_.args[0] == "Shr" and is_const(sh_.args[1]) and const_val(sh_.args[1]) == (1 << n) - 1:
+                    sa_, sc_ = lin(sh_.args[2])
+                    if sc_ == -1 and len(sa_) == 1 and list(sa_)[0][1] == 1:
+                        return list(sa_)[0][0]
+        return None
     if not (term.op == "call" and isinstance(term.args[0], str) and "{closure" in term.args[0] and term.args[0] in prog.fns and len(term.args[1]) == 2):
         return None
     # the closure value: one definition, capturing the mask
